@@ -35,6 +35,8 @@ def _battery(args):
             obs = Q.obs_c15(c)
         elif prop == "C16":
             obs = Q.obs_c16(c, styles=opts.get("styles"), rotate=base + k)
+        elif prop == "C17":
+            obs = Q.obs_c17(c)
         elif prop == "C08":
             obs = Q.obs_c08(c, lambda st=st: core.build(st, fl), assignments=_assignments(st, opts, base + k),
                             form_rotate=base + k)
@@ -190,6 +192,16 @@ def run(prop: str, tier: str) -> int:
         rep.assumptions = ["predicates answer per node identity; verdict forms rotate over: returned instance, raised "
                            "instance, returned class, raised class, StopIteration for stop",
                            "falsy verdicts alternate between False and None"]
+    elif prop == "C17":
+        sts = shapes(rep, max_nodes=4 if quick else 5, label="shapes", extra_inv=("InvExport",))
+        run_states(rep, prop, sts, "str", {}, "c17")
+        sts2 = labelled(rep, max_nodes=3 if quick else 4, d=2 if quick else 3, label="labelled-clones")
+        run_states(rep, prop, sts2, "str", {}, "c17-clones")
+        run_states(rep, prop, sts2, "falsy", {}, "c17-int0")
+        sts3 = labelled(rep, max_nodes=3, d=2, typed=True, kinds=(0, 2), label="typed-clones")
+        run_states(rep, prop, sts3, "str+typed", {}, "c17-typed")
+        rep.assumptions = ["only the emitted text / triples are examined (no Graphviz or mmdc rendering)",
+                           "graph node keys are mapped back through the harness registry (data_id / node_id)"]
     elif prop == "C16":
         sts = shapes(rep, max_nodes=5 if quick else 6, label="shapes")
         run_states(rep, prop, sts, "str", {}, "c16")
